@@ -108,6 +108,11 @@ pub struct WorldSpec {
 	/// is created, so a node's channels advertise different policies.
 	#[serde(default)]
 	pub chan_policies: Vec<(u32, u32, u16)>,
+	/// per node (index modulo length; empty = library default for all): the node does not commit to a shutdown
+	/// script when a channel is opened (`commit_upfront_shutdown_pubkey = false`), so the script is only fixed,
+	/// through a monitor update, when the channel is shut down
+	#[serde(default)]
+	pub late_shutdown_script: Vec<bool>,
 }
 
 /// selectors, 0 = the spec's value
@@ -167,6 +172,9 @@ impl WorldSpec {
 				let mut c = cfg.clone();
 				if !self.node_delays.is_empty() {
 					c.channel_handshake_config.our_to_self_delay = self.node_delays[i % self.node_delays.len()];
+				}
+				if !self.late_shutdown_script.is_empty() && self.late_shutdown_script[i % self.late_shutdown_script.len()] {
+					c.channel_handshake_config.commit_upfront_shutdown_pubkey = false;
 				}
 				if !self.node_tweaks.is_empty() {
 					let t = &self.node_tweaks[i % self.node_tweaks.len()];
@@ -274,9 +282,10 @@ pub fn world_spec(topos: Vec<Topology>) -> impl Strategy<Value = WorldSpec> + Cl
 				1 => Just(vec![]),
 				1 => proptest::collection::vec((prop_oneof![Just(0u32), Just(1000u32), 0u32..5_000], prop_oneof![Just(0u32), 0u32..20_000], prop_oneof![Just(72u16), 72u16..200]), 3..=8)
 			],
+			prop_oneof![2 => Just(vec![]), 1 => proptest::collection::vec(any::<bool>(), 2..=4)],
 		),
 	)
-		.prop_map(|((topo, ctype, value_sat, push_permille, reserve_ppm, htlc_min_msat, inflight_pct, max_accepted), (dfix, dmul, fb, fp, cltv, feerate, deferred, cs, node_delays, node_tweaks, chan_policies))| WorldSpec {
+		.prop_map(|((topo, ctype, value_sat, push_permille, reserve_ppm, htlc_min_msat, inflight_pct, max_accepted), (dfix, dmul, fb, fp, cltv, feerate, deferred, cs, node_delays, node_tweaks, chan_policies, late_shutdown_script))| WorldSpec {
 			topo,
 			ctype,
 			value_sat,
@@ -297,6 +306,7 @@ pub fn world_spec(topos: Vec<Topology>) -> impl Strategy<Value = WorldSpec> + Cl
 			node_delays,
 			node_tweaks,
 			chan_policies,
+			late_shutdown_script,
 		})
 }
 
@@ -333,6 +343,8 @@ pub enum Op {
 	DecodeAdds { node: u16 },
 	Disconnect { pair: u16 },
 	Reconnect { pair: u16 },
+	/// one payment from node 0 in two parts over the same path: two HTLCs with one payment hash on every channel of it
+	SendTwoParts { route: u16, amt: Amt, split: u16 },
 	SetFee { node: u16, rate: u32 },
 	/// like `SetFee` without the clamp to the library's buffers (any jump up or down)
 	SetFeeJump { node: u16, rate: u32 },
@@ -390,11 +402,12 @@ pub struct OpWeights {
 	pub send_blinded: u32,
 	pub setfee_jump: u32,
 	pub decode_adds: u32,
+	pub send_two_parts: u32,
 }
 
 impl OpWeights {
 	pub fn zero() -> OpWeights {
-		OpWeights { send: 0, claim: 0, fail: 0, deliver: 0, flush: 0, events: 0, forwards: 0, disconnect: 0, reconnect: 0, setfee: 0, timer: 0, async_toggle: 0, complete: 0, pump: 0, force_close: 0, tamper_revoke: 0, mine: 0, reorg: 0, set_style: 0, snapshot: 0, restart: 0, send_blinded: 0, setfee_jump: 0, decode_adds: 0 }
+		OpWeights { send: 0, claim: 0, fail: 0, deliver: 0, flush: 0, events: 0, forwards: 0, disconnect: 0, reconnect: 0, setfee: 0, timer: 0, async_toggle: 0, complete: 0, pump: 0, force_close: 0, tamper_revoke: 0, mine: 0, reorg: 0, set_style: 0, snapshot: 0, restart: 0, send_blinded: 0, setfee_jump: 0, decode_adds: 0, send_two_parts: 0 }
 	}
 }
 
@@ -412,6 +425,7 @@ pub fn op_strategy(w: OpWeights) -> impl Strategy<Value = Op> + Clone {
 	let mut v: Vec<(u32, BoxedStrategy<Op>)> = vec![
 		(w.send, (any::<u16>(), amt_strategy()).prop_map(|(route, amt)| Op::Send { route, amt }).boxed()),
 		(w.send_blinded, (any::<u16>(), amt_strategy()).prop_map(|(route, amt)| Op::SendBlinded { route, amt }).boxed()),
+		(w.send_two_parts, (any::<u16>(), amt_strategy(), any::<u16>()).prop_map(|(route, amt, split)| Op::SendTwoParts { route, amt, split }).boxed()),
 		(w.claim, any::<u16>().prop_map(|pay| Op::Claim { pay }).boxed()),
 		(w.fail, any::<u16>().prop_map(|pay| Op::FailBack { pay }).boxed()),
 		(w.deliver, (any::<u16>(), 1u8..6).prop_map(|(link, k)| Op::Deliver { link, k }).boxed()),
@@ -513,6 +527,24 @@ pub fn apply(sim: &mut Sim, spec: &WorldSpec, op: &Op) -> &'static str {
 				"send-blinded"
 			}
 		},
+		#[cfg(feature = "ext_c03")]
+		Op::SendTwoParts { route, amt, split } => {
+			let routes: Vec<Vec<usize>> = spec.topo.routes().into_iter().filter(|(from, _)| *from == 0).map(|(_, c)| c).collect();
+			if routes.is_empty() || sim.pays.len() >= 60 {
+				return "send-skipped";
+			}
+			let chans = routes[pick(*route, routes.len())].clone();
+			let Some(a) = resolve_amount(sim, 0, chans[0], amt) else { return "send-skipped" };
+			let a = (if chans.len() > 1 { a / 2 } else { a }).max(2);
+			let first = 1 + ((a - 2) as u128 * *split as u128 >> 16) as u64;
+			match sim.c03_send_explicit(&[(chans.clone(), first), (chans, a - first)], 0) {
+				None => "send-skipped",
+				Some((_, _, _, true)) => "send-two-parts",
+				Some(_) => "send-refused",
+			}
+		},
+		#[cfg(not(feature = "ext_c03"))]
+		Op::SendTwoParts { .. } => "send-skipped",
 		Op::Claim { pay } => {
 			let cands: Vec<usize> = sim.pays.iter().filter(|p| p.state == PayState::Claimable).map(|p| p.idx).collect();
 			if cands.is_empty() {
